@@ -8,15 +8,13 @@ import (
 	"strings"
 
 	"go.lstv.dev/util/sem"
+	"verif/libdefaults"
 	"verif/mc"
 	"verif/oracle"
 )
 
 func reset() {
-	sem.MaxInputLength = 1024
-	sem.Formatter = sem.DefaultFormatter
-	sem.Parser = sem.DefaultParser[[]byte]
-	sem.ComparePreRelease = sem.DefaultComparePreRelease[string, string]
+	libdefaults.Sem()
 }
 
 // typedFor: the parse error is typed by the kind of input that was passed (ParseError[T].Input has the caller's type)
